@@ -7,12 +7,12 @@ CONSTANTS
   Windows = {1}
   LeaderCandidates <- Leader3
   HeartbeatCandidates <- HbW1
-  Proposable = {"Heartbeat", "Redemption"}
+  Proposable = {"Heartbeat"}
   SignableActions = {"Heartbeat"}
   LeaderFaults = {"silent", "disallowed", "equivocate", "impersonate"}
   FaultyWallets = {"w1"}
   Hazard = "none"
-  Loss = {"w1"}
+  Loss = {}
   Offline = FALSE
   SeedFailures = FALSE
   Slow = {}
@@ -34,5 +34,5 @@ CONSTANTS
   CoolDown <- C_CoolDown
   AttemptMaxBlocks <- C_AttemptMaxBlocks
   BlockSeconds = 12
-INVARIANTS TypeOK OnlyMembers ResultsAgreeOnLeader WindowOnce ExecutedOnlyIfDispatched DispatchNeedsResult BusyIffOccupied ExecutedWasProposedByLeader FollowersExecuteOnlyAllowed SignatureNeedsQuorumOnWindowsCoincide AnnouncementsCoincide SigningWithinDeadline NothingBeforeItsWindow PostStepBounded WindowsDisjoint FaultsSound
+INVARIANTS TypeOK OnlyMembers ResultsAgreeOnLeader WindowOnce ExecutedOnlyIfDispatched DispatchNeedsResult BusyIffOccupied ExecutedWasProposedByLeader FollowersExecuteOnlyAllowed SignatureNeedsQuorumOnSameProposal WindowsCoincide AnnouncementsCoincide SigningWithinDeadline NothingBeforeItsWindow PostStepBounded WindowsDisjoint FaultsSound
 PROPERTIES NoQueue DroppedStaysDropped WalletsIndependent
